@@ -157,7 +157,9 @@ class World:
     def _guarded_step(self, loop: VLoop) -> None:
         if self.wall_budget:
             def on_alarm(signum, frame):
-                raise Stall(f'loop {loop.name} did not yield within {self.wall_budget}s of wall-clock time')
+                # the exception lands in whatever coroutine is spinning (and may be swallowed there): remember it
+                self.stalled = f'loop {loop.name} did not yield within {self.wall_budget}s of wall-clock time'
+                raise Stall(self.stalled)
             old = signal.signal(signal.SIGALRM, on_alarm)
             signal.alarm(self.wall_budget)
             try:
@@ -165,6 +167,8 @@ class World:
             finally:
                 signal.alarm(0)
                 signal.signal(signal.SIGALRM, old)
+            if self.stalled:
+                raise Stall(self.stalled)
         else:
             loop.step()
 
